@@ -28,12 +28,14 @@ CONSTANTS KeyGraph,   \* "plain" | "same" | "shared" | "indep" | "mixed"
           Mutant      \* "none" or the name of a seeded design error (must be caught)
 
 (* ---- key graph ------------------------------------------------------- *)
-Users == IF KeyGraph = "mixed" THEN {"a", "b", "c"} ELSE {"a", "b"}
+\* "chain": a owner, b shared from a, c shared from b (shared-of-shared), d independent
+Users == IF KeyGraph = "mixed" THEN {"a", "b", "c"} ELSE IF KeyGraph = "chain" THEN {"a", "b", "c", "d"} ELSE {"a", "b"}
 FamOf(u) == CASE KeyGraph = "plain"  -> "P"
               [] KeyGraph = "same"   -> "F1"
               [] KeyGraph = "shared" -> "F1"
               [] KeyGraph = "indep"  -> IF u = "a" THEN "F1" ELSE "F2"
               [] KeyGraph = "mixed"  -> IF u = "c" THEN "F2" ELSE "F1"
+              [] KeyGraph = "chain"  -> IF u = "d" THEN "F2" ELSE "F1"
 \* the user key protects the private half of a snapshot; a clone/shared key has its own
 UKeyOf(u) == CASE KeyGraph = "plain" -> "P"
                [] KeyGraph = "same"  -> "a"
